@@ -30,7 +30,8 @@ var ErrInjected = errors.New("sim: injected I/O fault")
 type Conn struct {
 	H               http.Header
 	Events          []ConnEvent
-	Status          int // first final status received (0 = none)
+	Status          int // first final status received, explicit or implied by a body write (0 = none)
+	Explicit        int // first final status received through WriteHeader (0 = none)
 	Finals          int // number of final WriteHeader calls received
 	Body            []byte
 	FailAfter       int
@@ -55,6 +56,9 @@ func (c *Conn) WriteHeader(code int) {
 	}
 	if c.Status == 0 {
 		c.Status = code
+	}
+	if c.Explicit == 0 {
+		c.Explicit = code
 	}
 }
 
